@@ -100,7 +100,8 @@ def build(case):
     if case["payload"] == "dask":
         import dask.array as da
         data = da.from_array(d, chunks=tuple(max(1, s // 2) for s in shape))
-        if isinstance(mask, np.ndarray):
+        if isinstance(mask, np.ndarray) and case["wseed"] % 2:
+            # (a lazy payload with a lazy mask, or - every second case - with a plain numpy mask)
             mask = da.from_array(mask, chunks=tuple(max(1, s // 2) for s in shape))
     wcs = W.make_wcs(random.Random(case["wseed"]), shape, "probe")
     return NDCube(data, wcs=wcs, mask=mask, unit=u.ct, meta={"m": 1}), d, mask
